@@ -67,6 +67,15 @@ func genM9(t *simrt.Tape, id int) *m9msg {
 	}
 	add("Message-ID", fmt.Sprintf("<m%d@example.org>", id))
 	if t.Choose(3) == 0 {
+		// a field that occurs more than once: every occurrence counts for SEARCH HEADER and HEADER.FIELDS
+		add("Received", "from alpha.example by mx.example; id A1")
+		add("Received", "from origin.sender by relay.example; id B2")
+		if t.Choose(2) == 0 {
+			add("Comments", "first remark")
+			add("Comments", "second needle remark")
+		}
+	}
+	if t.Choose(3) == 0 {
 		add("X-Custom", []string{"alpha", "Beta gamma", "needle"}[t.Choose(3)])
 	}
 	var body string
@@ -305,11 +314,16 @@ func genSearchKey(t *simrt.Tape, depth int, msgs []*m9msg, maxUID uint32) skey {
 		f := []string{"FROM", "TO"}[t.Choose(2)]
 		return skey{f + ` "` + s + `"`, func(m *m9msg, seq int) bool { v, _ := m.header(f); return containsFold(v, s) }}
 	case 13:
-		h := []string{"X-Custom", "message-id", "Content-Type"}[t.Choose(3)]
-		s := []string{"", "needle", "multipart", "m1"}[t.Choose(4)]
+		h := []string{"X-Custom", "message-id", "Content-Type", "Received", "comments"}[t.Choose(5)]
+		s := []string{"", "needle", "multipart", "m1", "origin.sender", "alpha", "second"}[t.Choose(7)]
 		return skey{`HEADER ` + h + ` "` + s + `"`, func(m *m9msg, seq int) bool {
-			v, ok := m.header(h)
-			return ok && containsFold(v, s)
+			// RFC 9051 6.4.4: a header field with the given name whose value contains the string — any occurrence
+			for _, f := range m.fields {
+				if strings.EqualFold(f[0], h) && containsFold(f[1], s) {
+					return true
+				}
+			}
+			return false
 		}}
 	case 14:
 		s := []string{"needle", "quick", "hello", "line2"}[t.Choose(4)]
@@ -1191,7 +1205,7 @@ func (d *c09driver) selectedStep(s *m9sess, b *m9box, kind string) bool {
 			case 3:
 				items = append(items, "INTERNALDATE")
 			default:
-				spec := []string{"", "HEADER", "TEXT", "HEADER.FIELDS (Subject From)", "HEADER.FIELDS.NOT (To Date)", "1", "2", "HEADER.FIELDS (x-custom)"}[t.Choose(8)]
+				spec := []string{"", "HEADER", "TEXT", "HEADER.FIELDS (Subject From)", "HEADER.FIELDS.NOT (To Date)", "1", "2", "HEADER.FIELDS (x-custom)", "HEADER.FIELDS (Received Comments)", "HEADER.FIELDS.NOT (received)"}[t.Choose(10)]
 				sr := secReq{spec: spec}
 				it := "BODY.PEEK[" + spec + "]"
 				nonPeek := t.Choose(6) == 0
